@@ -339,4 +339,28 @@ CHECKS = {
         "assumptions": [],
         "selftest": False,
     },
+    "C09": {
+        "level": "exploration",
+        "level_text": "seeded cases of the certificate product {trusted / other authority / self-signed} x {valid / expired / not yet valid / "
+                      "expiring between configuration and presentation, against the simulated clock} x {server, client, both, other, no key "
+                      "usage} x {expected ID, other ID, several IDs with / without it, none} x {expected DNS name y/n} x pin lists {none, sha256, "
+                      "sha512, sha224, non-matching, wrong length, mixed}, for client and server verification in receptor and DNS name modes, "
+                      "observed at three layers: the installed VerifyPeerCertificate, a TLS handshake over a simulated pipe "
+                      "(PrepareTLS*Config / GetClientTLSConfig output), and a mutually authenticated QUIC stream listener on a two-node mesh "
+                      "where the dialling node presents the certificate under test; an independent decision procedure written from the "
+                      "property text gives the expected verdict",
+        "level_note": "the product is finite; a run samples 43-123 cells, the time dimension and the mesh identity binding are the simulated parts; "
+                      "certificates use ECDSA keys from an in-harness CA (the property is about verification, not issuance: that is C20)",
+        "quick": {"runs": 200, "per_proc": 20},
+        "thorough": {"runs": 8000, "per_proc": 50},
+        "hang_is_violation": True,
+        "proc_timeout": 300,
+        "rule": "one run = 40-120 verify/pipe cases + 3 mesh cases; distinct_nontrivial counts distinct case multisets; counters.layer_* give the "
+                "number of cases per observation layer",
+        "real": ["pkg/netceptor ReceptorVerifyFunc, GetClientTLSConfig, PrepareTLSServerConfig/PrepareTLSClientConfig, conn.go listen/Dial", "crypto/tls, crypto/x509 against the simulated clock",
+                 "quic-go fork (clock skew copy)", "pkg/utils receptor-name extension"],
+        "stub": ["TCP/websocket sockets under the TLS handshake (simulated pipe)"],
+        "assumptions": ["fingerprints of other lengths than sha256/sha512 are configuration errors, as the configuration layer has it"],
+        "selftest": False,
+    },
 }
